@@ -14,7 +14,7 @@ PYTHONPATH=$wt LOKI_REPO=$wt VERIF_OUT=$out ./check "$id" --tier "$tier" > "$out
 viol=$(grep -m1 '^VIOLATION' "$out.log")
 echo "SEED $id $(basename $(dirname $dir))/$(basename $dir) tier=$tier demo(clean)=$clean_rc demo(patched)=$mut_rc check_rc=$rc $viol"
 grep -m2 "violation:" "$out.log" | cut -c1-300
-git -C /repo worktree remove --force "$wt"; rm -rf "$out"
+cp "$out.log" /verif/.work/lasttry_${id}.log 2>/dev/null; git -C /repo worktree remove --force "$wt"; rm -rf "$out" "$out.log"
 # restore generated tables for the real tree
 ./check tables >/dev/null 2>&1
 exit 0
